@@ -4,7 +4,8 @@ from harness import common, gen, hist, alpha
 PID = "C07"
 RULE = ("seeded random trees; every case picks a node (root / inner / leaf, any depth) as save target, one of the three tree "
         "options, rooted or unrooted; file raw-walked and compared with the selection spec computed from the source objects "
-        "(oracle) and with the Lean model; non-trivial = target is not the root or tree option is not True; distinct by recipe hash")
+        "(oracle) and with the Lean model; trees hold nodes of all five classes incl. Custom nodes with node-valued attributes "
+        "(public and private-looking attribute names) whose expected group content is stated without calling Custom.to_h5; non-trivial = target is not the root or tree option is not True; distinct by recipe hash")
 
 
 def mk_case(tree, target, opt, unrooted=None, prior=False):
